@@ -71,15 +71,30 @@ def run_one(ch, cfg):
     nfollow = 1 + ch.draw(3, "follow-ups")
     script = SCRIPTS[ch.draw(len(SCRIPTS), "reconnect-script")]
     heal = ch.draw(2, "operator-heals") == 0
-    w, rep, exc, xch, req = c04.run_request(variant, pseed, fault=(k, kind), cseed=cseed)
+    slow = None
+    if step[0] == "exit" and ch.draw(2, "slow-reboot") == 1:
+        # no injected fault: after this EXIT the device simply stays off the bus for a while (longer
+        # than the manager waits before re-opening) - a link failure as far as the request goes
+        slow = ch.pick([1.5, 3.5, 30.0], "slow-reboot.delay")
+        kind = "slow-reboot-%s" % slow
+        key = "post_exit_signer" if step[1] in ("first", "only") else "post_exit_uihb"
+        w, rep, exc, xch, req = c04.run_request(variant, pseed, fault=None, cseed=cseed,
+                                                dcfg_override={key: {"delay": slow}})
+        w.clock.advance(60.0)              # the follow-ups find the device back on the bus
+    else:
+        w, rep, exc, xch, req = c04.run_request(variant, pseed, fault=(k, kind), cseed=cseed)
     dev, link = w.device, w.link
-    fired = sum(link.stats.faults.values()) > 0
+    fired = sum(link.stats.faults.values()) > 0 or slow is not None
     is_link_failure = not kind.startswith("timeout")
     # ---- faulted request
     if exc is not None:
         viol.append(("fault/manager-stopped:%s" % kind, "%s step %s %s -> %s: %s" % (
             variant, step, kind, type(exc).__name__, exc)))
-    if not isinstance(rep, dict) or rep.get("errorcode") != errcode:
+    if slow is not None and exc is None and isinstance(rep, dict) and rep.get("errorcode") == 0:
+        # a manager patient enough to find the device again completed the request: no link failure
+        # as far as the client is concerned, nothing to repair
+        is_link_failure = False
+    elif not isinstance(rep, dict) or rep.get("errorcode") != errcode:
         viol.append(("fault/reply:%s" % kind, "%s step %s %s -> reply %r, expected errorcode %d" % (
             variant, step, kind, rep, errcode)))
     # ---- follow-ups
@@ -181,7 +196,7 @@ def run_one(ch, cfg):
             pre = names[:first_x]
             allpre = [e[0] for e in link.transport[mark_fault:m0]] + pre
             if "xchg" in names:
-                if "close" not in allpre:
+                if "close" not in allpre and slow is None:      # (slow reboot: closed within the request)
                     viol.append(("reconnect/no-close", "old handle not closed before %s" % (
                         xs[0][2].hex(),)))
                 if "enumerate" not in pre or "open" not in pre or \
